@@ -777,7 +777,7 @@ func (S) RunTape(t *sim.Tape, st *sim.Stats, keepLog bool) *sim.Outcome {
 				return // no reference run to compare with
 			}
 			N := pos
-			if N > len(t0)+1 {
+			if N > info.V+1 {
 				return
 			}
 			got, err, pan := tw(&traversal.Budget{NodeBudget: int64(N), LinkBudget: 1 << 40})
@@ -797,6 +797,16 @@ func (S) RunTape(t *sim.Tape, st *sim.Stats, keepLog bool) *sim.Outcome {
 				o.Fail("restricted-walk-error", sig, "WalkTransforming made %d callbacks under NodeBudget=%d and reported no budget error", len(got), N)
 			case N < len(t0) && len(got) > N:
 				o.Fail("restricted-walk-differs", sig, "WalkTransforming made %d callbacks under NodeBudget=%d", len(got), N)
+			case hasExplicitInterests(spec.Node()):
+				// a union of field / index / range clauses naming one child twice makes the read-only walk
+				// visit it twice, the transforming walk once: the counts below compare like with like only
+				// where both walks go through the children as the node has them
+			case N < info.V && err == nil:
+				// the transforming walk enters the nodes the read-only walk visits (every one of them
+				// counts against the budget, matched or not)
+				o.Fail("restricted-walk-error", sig, "WalkTransforming finished without a budget error under NodeBudget=%d; the walk enters %d nodes", N, info.V)
+			case N >= info.V && err != nil:
+				o.Fail("restricted-walk-error", sig, "WalkTransforming with a sufficient NodeBudget=%d (the walk enters %d nodes) ended with %v", N, info.V, err)
 			}
 			if err != nil {
 				cut = true
@@ -1197,6 +1207,33 @@ func (S) Unit(u *scen.Unit) {
 			u.St.Inc("enum.transform_link_controls")
 		}
 	}
+}
+
+// hasExplicitInterests: does the selector name children (fields, an index, a range) anywhere?
+func hasExplicitInterests(n datamodel.Node) bool {
+	switch n.Kind() {
+	case datamodel.Kind_Map:
+		for it := n.MapIterator(); !it.Done(); {
+			k, v, err := it.Next()
+			if err != nil {
+				return true
+			}
+			if ks, _ := k.AsString(); ks == "f" || ks == "i" || ks == "r" {
+				return true
+			}
+			if hasExplicitInterests(v) {
+				return true
+			}
+		}
+	case datamodel.Kind_List:
+		for it := n.ListIterator(); !it.Done(); {
+			_, v, err := it.Next()
+			if err != nil || hasExplicitInterests(v) {
+				return true
+			}
+		}
+	}
+	return false
 }
 
 func min(a, b int) int {
